@@ -185,7 +185,13 @@ def _run_job(job):
             c = check.contracts()[ki]
             fr = explore(ctx, c, getattr(c, "runner", None))
             obls = fr.obligations
-        verdicts = discharge(obls, timeout_ms=_JOB_TIMEOUT, procs=1)
+        if ci is None:
+            verdicts = discharge(obls, timeout_ms=_JOB_TIMEOUT, procs=1)
+        else:
+            # a canary only has to make ONE obligation fail: expected ones first, stop at the first hit
+            exp = _JOB_CANARIES[ci].expect
+            obls = sorted(obls, key=lambda o: (exp not in o.name, o.name))
+            verdicts = discharge(obls, timeout_ms=min(_JOB_TIMEOUT, 10000), procs=1, stop_at_sat=True)
         recs = []
         for ob, v, sec, m, why in verdicts:
             explained = False
